@@ -417,6 +417,74 @@ func genTsBatch(g *gen) {
 		}
 	}
 
+	// Are the initial variables visible to ts.expand when the archive entry names are expanded?
+	// true iff, in source order before the loop over a.Files, setup() assigns ts.envMap (directly
+	// or through a method of ts that does).
+	if setup != nil {
+		var loopPos = setup.Body.End()
+		foundLoop := false
+		ast.Inspect(setup.Body, func(n ast.Node) bool {
+			if rs, ok := n.(*ast.RangeStmt); ok && tsbIsSel(rs.X, "a", "Files") && !foundLoop {
+				loopPos, foundLoop = rs.Pos(), true
+			}
+			return true
+		})
+		if !foundLoop {
+			g.fail("setup: the loop `for _, f := range a.Files` that unpacks the archive was not found")
+		}
+		assignsEnvMap := func(n ast.Node) bool {
+			hit := false
+			ast.Inspect(n, func(m ast.Node) bool {
+				if as, ok := m.(*ast.AssignStmt); ok {
+					for _, l := range as.Lhs {
+						if tsbIsSel(l, "ts", "envMap") {
+							hit = true
+						}
+					}
+				}
+				return true
+			})
+			return hit
+		}
+		sees := false
+		for _, st := range setup.Body.List {
+			if st.Pos() >= loopPos {
+				break
+			}
+			if assignsEnvMap(st) {
+				sees = true
+			}
+			ast.Inspect(st, func(m ast.Node) bool {
+				if ce, ok := m.(*ast.CallExpr); ok {
+					if se, ok := ce.Fun.(*ast.SelectorExpr); ok {
+						if id, ok := se.X.(*ast.Ident); ok && id.Name == "ts" {
+							for _, f := range g.files(dir) {
+								for _, d := range f.Decls {
+									if fd, ok := d.(*ast.FuncDecl); ok && fd.Recv != nil && fd.Name.Name == se.Sel.Name && fd.Body != nil && assignsEnvMap(fd.Body) {
+										sees = true
+									}
+								}
+							}
+						}
+					}
+				}
+				return true
+			})
+		}
+		// the names are expanded at all (ts.expand(f.Name)); without expansion "$WORK/x" would be a literal name
+		expands := false
+		ast.Inspect(setup.Body, func(n ast.Node) bool {
+			if ce, ok := n.(*ast.CallExpr); ok && tsbIsSel(ce.Fun, "ts", "expand") && len(ce.Args) == 1 && tsbIsSel(ce.Args[0], "f", "Name") {
+				expands = true
+			}
+			return true
+		})
+		if !expands {
+			g.fail("setup: ts.expand(f.Name) not found")
+		}
+		g.tsbEmitBool("entry_names_see_env", "testscript.setup: ts.envMap is built before the archive entry names are expanded (a name $WORK/x is then a file of the work directory, not /x)", sees)
+	}
+
 	// ---------------------------------------------------------------- RunT
 	runT := g.funcDecl(dir, "RunT")
 	if runT != nil {
